@@ -42,6 +42,8 @@ RANGE_VALUES = [-1, 0, 65, 2 ** 63, 2 ** 64 + 1]
 NONSTRING_KEYS = [('int', 7), ('bool', True), ('null', None), ('float', 2.5),
                   ('complex-seq', 'ZZCOMPLEXKEYZZ'), ('complex-map', 'ZZCOMPLEXMAPZZ')]
 IDENT = re.compile(r'^[A-Za-z_][A-Za-z0-9_]*$')
+C_TYPE_OK = re.compile(r'^((unsigned|signed) )?(char|short|int|long)( int)?$|^(unsigned|signed)$|^u?int(_least|_fast)?(8|16|32|64)_t$|'
+                       r'^(size_t|u?intmax_t|u?intptr_t|clock_t|time_t)$')
 
 # functions of config_parse_v3.py that run AFTER the final schema validation (a crash there is a
 # hole of the schema, not a pre-expansion stage trusting a shape)
@@ -166,24 +168,35 @@ def corpus_cases(scratch):
              "      packet-context-type:\n        class: struct\n        fields:\n"
              "          packet_size: {class: int, size: 32}\n          content_size: {class: int, size: 32}\n"
              "      events:\n        e:\n          payload-type:\n            class: struct\n            fields:\n")
+    T3 = H + 'trace:\n  type:\n    native-byte-order: le\n'
+    PL = '{payload-field-type: {class: struct, members: [{a: {field-type: {class: uint, size: 8}}}]}}'
+    DST1 = '    data-stream-types: {d: {event-record-types: {e: ' + PL + '}}}\n'
+    V2 = ("version: '2.2'\nmetadata:\n  trace: {byte-order: le}\n  streams:\n    s:\n      packet-context-type: {class: struct, "
+          "fields: {packet_size: {class: int, size: 8}, content_size: {class: int, size: 8}}}\n")
+    V2EV = '      events: {e: {payload-type: {class: struct, fields: {a: {class: int, size: 8}}}}}\n'
     pwn = os.path.join(scratch, 'python-tag-was-executed')
     cases = [
-        # --- known deviation classes, hand-minimised
+        # --- known deviation classes, hand-minimised (expected key in the last column)
         ('S5-scalar-root', {MAIN: '5\n'}, 2, 'S5-non-mapping-root-assert'),
         ('S5-list-root', {MAIN: '- a\n'}, 2, 'S5-non-mapping-root-assert'),
         ('S5-empty-file', {MAIN: ''}, 2, 'S5-non-mapping-root-assert'),
         ('S5-null-root', {MAIN: '~\n'}, 2, 'S5-non-mapping-root-assert'),
         ('S7-int-key-root-v2', {MAIN: "version: '2.2'\n1: 2\n"}, 2, None),
-        ('S7-int-key-env', {MAIN: H + 'trace:\n  environment: {1: a}\n  type:\n    native-byte-order: le\n'
-                                       '    data-stream-types: {d: {event-record-types: {e: {}}}}\n'}, 3,
-         'S7-non-string-key-TypeError'),
-        ('S7-yaml11-bool-key', {MAIN: H + 'trace:\n  environment: {no: 1}\n  type:\n    native-byte-order: le\n'
-                                          '    data-stream-types: {d: {event-record-types: {e: {}}}}\n'}, 3,
-         'S7-non-string-key-TypeError'),
-        ('S7-int-key-dsts', {MAIN: H + 'trace:\n  type:\n    native-byte-order: le\n    data-stream-types: {1: {}}\n'}, 3,
-         'S7-non-string-key-TypeError'),
+        ('S7-int-key-env', {MAIN: T3 + DST1 + '  environment: {1: a}\n'}, 3, 'S7-non-string-key-TypeError'),
+        ('S7-yaml11-bool-key', {MAIN: T3 + DST1 + '  environment: {no: 1}\n'}, 3, 'S7-non-string-key-TypeError'),
+        ('S7-int-key-dsts', {MAIN: T3 + '    data-stream-types: {1: {}}\n'}, 3, 'S7-non-string-key-TypeError'),
         ('S4-dynamic-array-no-element', {MAIN: H + mini3 + '                - a: {field-type: {class: dynamic-array}}\n'}, 3,
          'S4-dynamic-array-KeyError'),
+        ('S4-dynamic-array-element-class-map',
+         {MAIN: T3 + '    data-stream-types:\n      d:\n        packet-context-field-type-extra-members:\n'
+                     '          - a: {field-type: {class: dynamic-array, element-field-type: {class: {}}}}\n'
+                     '        event-record-types: {e: ' + PL + '}\n'}, 3, 'S4-dynamic-array-TypeError'),
+        ('S4-dynamic-array-element-alignment-0',
+         {MAIN: H + mini3 + '                - a: {field-type: {class: dynamic-array, element-field-type: '
+                            '{class: uint, size: 8, alignment: 0}}}\n'}, 3, 'S4-dynamic-array-AssertionError'),
+        ('S4-dynamic-array-element-size-true',
+         {MAIN: H + mini3 + '                - a: {field-type: {class: dynamic-array, element-field-type: {class: uint, size: true}}}\n'}, 3,
+         'S4-dynamic-array-does-not-compile'),
         ('S14-static-array-no-length',
          {MAIN: H + mini3 + '                - a: {field-type: {class: static-array, element-field-type: {class: str}}}\n'}, 3,
          'S14-static-array-KeyError-length'),
@@ -193,37 +206,93 @@ def corpus_cases(scratch):
         ('S15-deep-block', {MAIN: ''.join(' ' * i + 'a:\n' for i in range(600)) + ' ' * 600 + 'b\n'}, 2,
          'S15-deep-nesting-RecursionError'),
         ('S6-beginning-timestamp-no-clock',
-         {MAIN: H + 'trace:\n  type:\n    native-byte-order: le\n    data-stream-types:\n      d:\n        $features:\n'
-                    '          packet: {beginning-timestamp-field-type: true}\n        event-record-types:\n'
-                    '          e: {payload-field-type: {class: struct, members: [{a: {field-type: {class: uint, size: 8}}}]}}\n'}, 3,
+         {MAIN: T3 + '    data-stream-types:\n      d:\n        $features:\n'
+                     '          packet: {beginning-timestamp-field-type: true}\n        event-record-types:\n          e: ' + PL + '\n'}, 3,
          'S6-timestamp-feature-without-clock-does-not-compile'),
         ('S6-er-timestamp-no-clock',
-         {MAIN: H + 'trace:\n  type:\n    native-byte-order: le\n    data-stream-types:\n      d:\n        $features:\n'
-                    '          event-record: {timestamp-field-type: true}\n        event-record-types:\n'
-                    '          e: {payload-field-type: {class: struct, members: [{a: {field-type: {class: uint, size: 8}}}]}}\n'}, 3,
+         {MAIN: T3 + '    data-stream-types:\n      d:\n        $features:\n'
+                     '          event-record: {timestamp-field-type: true}\n        event-record-types:\n          e: ' + PL + '\n'}, 3,
          'S6-timestamp-feature-without-clock-does-not-compile'),
+        ('uuid-feature-without-uuid',
+         {MAIN: T3 + '    $features: {uuid-field-type: true}\n    data-stream-types: {d: {event-record-types: {e: ' + PL + '}}}\n'}, 3,
+         'NEW-uuid-feature-without-uuid-does-not-compile'),
+        ('huge-length', {MAIN: H + mini3 + '                - a: {field-type: {class: static-array, length: %d, '
+                               'element-field-type: {class: uint, size: 8}}}\n' % (2 ** 64)}, 3,
+         'NEW-unbounded-integer-property-does-not-compile'),
+        ('huge-alignment', {MAIN: H + mini3 + '                - a: {field-type: {class: uint, size: 8, alignment: %d}}\n' % (2 ** 64)}, 3,
+         'NEW-unbounded-integer-property-does-not-compile'),
+        ('enum-mappings-null', {MAIN: H + mini3 + '                - a: {field-type: {class: uenum, size: 8, mappings: null}}\n'}, 3,
+         'NEW-KeyError-_create_enum_ft'),
         ('S8-root-key-required', {MAIN: H + 'required: 1\n' + mini3 + '                - a: {field-type: {class: str}}\n'}, 3,
          'S8-schema-misplaced-required'),
-        ('S8-trace-type-key-required',
-         {MAIN: H + 'trace:\n  type:\n    required: 1\n    native-byte-order: le\n    data-stream-types: {d: {event-record-types: {e: {}}}}\n'},
-         3, 'S8-schema-misplaced-required'),
+        ('S8-trace-type-key-required', {MAIN: T3 + '    required: 1\n' + DST1}, 3, 'S8-schema-misplaced-required'),
+        ('S8-trace-without-type', {MAIN: H + 'trace: {}\n'}, 3, 'S8-_trace_type_node'),
+        ('S8-aliases-without-dsts', {MAIN: T3 + '    $field-type-aliases: {}\n'}, 3, 'S8-_normalize_struct_ft_member_nodes'),
         ('S8-empty-member-entry',
-         {MAIN: H + 'trace:\n  type:\n    native-byte-order: le\n    $field-type-aliases: {}\n    data-stream-types:\n      d:\n'
-                    '        packet-context-field-type-extra-members: [{}]\n        event-record-types: {e: {}}\n'}, 3, None),
+         {MAIN: T3 + '    $field-type-aliases: {}\n    data-stream-types:\n      d:\n'
+                     '        packet-context-field-type-extra-members: [{}]\n        event-record-types: {e: {}}\n'}, 3,
+         'S8-normalize_members_node'),
         ('S8-member-entry-scalar',
-         {MAIN: H + 'trace:\n  type:\n    native-byte-order: le\n    $field-type-aliases: {}\n    data-stream-types:\n      d:\n'
-                    '        packet-context-field-type-extra-members: [5]\n        event-record-types: {e: {}}\n'}, 3, None),
+         {MAIN: T3 + '    $field-type-aliases: {}\n    data-stream-types:\n      d:\n'
+                     '        packet-context-field-type-extra-members: [5]\n        event-record-types: {e: {}}\n'}, 3, None),
         ('S8-member-value-int',
-         {MAIN: H + 'trace:\n  type:\n    native-byte-order: le\n    $field-type-aliases: {}\n    data-stream-types:\n      d:\n'
-                    '        packet-context-field-type-extra-members: [{a: 5}]\n        event-record-types: {e: {}}\n'}, 3, None),
+         {MAIN: T3 + '    $field-type-aliases: {}\n    data-stream-types:\n      d:\n'
+                     '        packet-context-field-type-extra-members: [{a: 5}]\n        event-record-types: {e: {}}\n'}, 3,
+         'S8-resolve_ft_alias_from'),
+        ('S8-member-inherit-int',
+         {MAIN: T3 + '    $field-type-aliases: {}\n    data-stream-types:\n      d:\n'
+                     '        packet-context-field-type-extra-members: [{a: {field-type: {$inherit: 5}}}]\n'
+                     '        event-record-types: {e: {}}\n'}, 3, 'S8-_resolve_ft_alias'),
+        ('S8-member-members-int',
+         {MAIN: T3 + '    $field-type-aliases: {}\n    data-stream-types:\n      d:\n'
+                     '        packet-context-field-type-extra-members: [{a: {field-type: {class: struct, members: 5}}}]\n'
+                     '        event-record-types: {e: {}}\n'}, 3, 'S8-normalize_members_node'),
+        ('S8-inherit-null-alias',
+         {MAIN: T3 + '    $field-type-aliases: {x: null}\n    data-stream-types: {d: {event-record-types: {e: '
+                     '{payload-field-type: {$inherit: x}}}}}\n'}, 3, 'S8-_apply_ft_inheritance'),
+        ('S8-inherit-true-alias',
+         {MAIN: T3 + '    $field-type-aliases: {x: true}\n    data-stream-types: {d: {event-record-types: {e: '
+                     '{payload-field-type: {$inherit: x}}}}}\n'}, 3, 'S8-_resolve_ft_alias'),
+        ('S8-v2-fields-null-with-aliases',
+         {MAIN: "version: '2.2'\nmetadata:\n  type-aliases: {}\n  trace: {byte-order: le}\n  streams:\n    s:\n"
+                "      packet-context-type: {class: struct, fields: null}\n      events: {e: {}}\n"}, 2,
+         'S8-_struct_ft_member_fts_iter'),
+        ('S8-v2-packet-context-fields-null',
+         {MAIN: "version: '2.2'\nmetadata:\n  trace: {byte-order: le}\n  streams:\n    s:\n"
+                "      packet-context-type: {class: struct, fields: null}\n      events: {e: {}}\n"}, 2, 'S8-_conv_dst_node'),
+        ('S8-v2-event-header-without-fields', {MAIN: V2 + '      event-header-type: {class: struct}\n' + V2EV}, 2, 'S8-_conv_dst_node'),
+        ('S8-v2-payload-fields-null', {MAIN: V2 + '      events: {e: {payload-type: {class: struct, fields: null}}}\n'}, 2,
+         'S8-_conv_struct_ft_node'),
+        ('S8-v2-packet-header-without-fields',
+         {MAIN: V2.replace('trace: {byte-order: le}', 'trace: {byte-order: le, packet-header-type: {class: struct}}') + V2EV}, 2,
+         'S8-v3_features_node_from_v2_ft_node'),
         ('S18-size-float', {MAIN: H + mini3 + '                - a: {field-type: {class: uint, size: 8.0}}\n'}, 3,
          'S18-integral-float-does-not-compile'),
         ('S18-alignment-float', {MAIN: H + mini3 + '                - a: {field-type: {class: uint, size: 8, alignment: 8.0}}\n'}, 3,
          'S18-integral-float-TypeError-_validate_alignment'),
-        ('S18-v2-size-float', {MAIN: mini2 + '              a: {class: int, size: 8.0}\n'}, 2, None),
-        ('member-name-dash', {MAIN: H + mini3 + '                - a-b: {field-type: {class: uint, size: 8}}\n'}, 3, None),
-        ('member-name-dash-unvalidated', {MAIN: H + mini3 + '                - a-b: 5\n'}, 3, None),
+        ('S18-enum-mapping-float',
+         {MAIN: H + mini3 + '                - a: {field-type: {class: uenum, size: 8, mappings: {A: [1.0]}}}\n'}, 3,
+         'S18-integral-float-AssertionError-_create_enum_ft'),
+        ('S18-type-id-size-float',
+         {MAIN: T3 + '    data-stream-types:\n      d:\n        $features: {event-record: {type-id-field-type: {class: uint, size: 8.0}}}\n'
+                     '        event-record-types: {e: ' + PL + '}\n'}, 3, 'S18-integral-float-TypeError-_create_dst'),
+        ('S18-dst-id-size-float',
+         {MAIN: T3 + '    $features: {data-stream-type-id-field-type: {class: uint, size: 8.0}}\n'
+                     '    data-stream-types: {d: {event-record-types: {e: ' + PL + '}}}\n'}, 3,
+         'S18-integral-float-TypeError-_create_trace_type'),
+        ('S18-v2-size-float', {MAIN: mini2 + '              a: {class: int, size: 8.0}\n'}, 2, None),   # accepted, `size = 8.0;` in the metadata
+        ('S18-v2-enum-value-float',
+         {MAIN: mini2 + '              a: {class: enum, value-type: {class: int, size: 8}, members: [{label: A, value: 1.0}]}\n'}, 2,
+         'S18-integral-float-AssertionError-_conv_enum_ft_node'),
+        ('member-name-dash', {MAIN: H + mini3 + '                - a-b: {field-type: {class: uint, size: 8}}\n'}, 3,
+         'NEW-member-name-pattern-does-not-compile'),
+        ('member-name-dash-unvalidated', {MAIN: H + mini3 + '                - a-b: 5\n'}, 3, 'NEW-member-name-pattern-TypeError'),
         ('member-keyword-int', {MAIN: H + mini3 + '                - int: {field-type: {class: uint, size: 8}}\n'}, 3, None),
+        ('yaml-complex-key', {MAIN: '[a]: 1\n'}, 2, 'NEW-TypeError-_yaml_load'),
+        ('yaml-complex-key-v3', {MAIN: H + '{a: 1}: 1\n'}, 3, 'NEW-TypeError-_yaml_load'),
+        ('yaml-map-tag-on-scalar', {MAIN: 'a: !!map b\n'}, 2, 'NEW-ValueError-_yaml_load'),
+        ('yaml-int-tag-on-word', {MAIN: 'a: !!int b\n'}, 2, 'NEW-ValueError-_yaml_load'),
+        ('yaml-invalid-utf8', {MAIN: b'a: \xff\n'}, 2, 'NEW-UnicodeDecodeError-_yaml_load'),
         # --- special documents
         ('empty-v3-tag-only', {MAIN: H}, 3, None),
         ('v3-tag-scalar', {MAIN: H.rstrip('\n') + ' 5\n'}, 3, None),
@@ -271,8 +340,6 @@ def corpus_cases(scratch):
         ('utf8-bom', {MAIN: b"\xef\xbb\xbfversion: '2.2'\nmetadata: {}\n"}, 2, None),
         ('crlf', {MAIN: (H + mini3 + '                - a: {field-type: {class: str}}\n').replace('\n', '\r\n')}, 3, None),
         ('huge-int-size', {MAIN: H + mini3 + '                - a: {field-type: {class: uint, size: %d}}\n' % (10 ** 400)}, 3, None),
-        ('huge-length', {MAIN: H + mini3 + '                - a: {field-type: {class: static-array, length: %d, '
-                               'element-field-type: {class: uint, size: 8}}}\n' % (2 ** 70)}, 3, None),
         ('include-self', {MAIN: H + 'trace:\n  $include: [config.yaml]\n'}, 3, None),
         ('include-dir', {MAIN: H + 'trace:\n  $include: [.]\n'}, 3, None),
         ('include-absolute-missing', {MAIN: H + 'trace:\n  $include: [/nonexistent/zz.yaml]\n'}, 3, None),
@@ -413,13 +480,41 @@ class schema_fix:
 FLOAT_TOKEN = re.compile(r'[0-9]\.0\b')
 
 
+class schema_fixes:
+    """Several holes closed at once."""
+
+    def __init__(self, names):
+        self.cms = [schema_fix(n) for n in names]
+
+    def __enter__(self):
+        for cm in self.cms:
+            cm.__enter__()
+        return self
+
+    def __exit__(self, *a):
+        for cm in reversed(self.cms):
+            cm.__exit__(*a)
+        return False
+
+
 def attribute(main, incdirs, fixes=FIXES):
-    """Name of the single schema hole whose repair makes the front end reject the document."""
+    """Name of the schema hole whose repair makes the front end reject the document.  When no single
+    repair does, an unvalidated sub-tree (S4, then MEMBER) combined with one other hole is tried: the
+    unvalidated sub-tree is then the primary cause."""
     for fx in fixes:
         with schema_fix(fx):
             r = D.call_api('from_file', main, incdirs, timeout=CASE_TIMEOUT)
         if r['outcome'] == 'cpe':
             return fx
+    if len(fixes) > 1:
+        for primary in ('S4', 'MEMBER'):
+            for other in fixes:
+                if other == primary:
+                    continue
+                with schema_fixes((primary, other)):
+                    r = D.call_api('from_file', main, incdirs, timeout=CASE_TIMEOUT)
+                if r['outcome'] == 'cpe':
+                    return primary
     return None
 
 
@@ -500,6 +595,8 @@ def _case(task):
             try:
                 gfiles = bt.generate(r['value'], gen)
                 out['generated'] = sorted(gfiles)
+                ctypes = r['value'].options.code_generation_options.clock_type_c_types or {}
+                out['odd_c_type'] = any(not C_TYPE_OK.match(str(v)) for v in ctypes.values())
                 fails = D.compile_generated(gfiles, gen, seen_dir=os.path.join(scratch, 'seen'))
                 out['compile_fail'] = fails[:1]
             except BaseException as exc:  # noqa: BLE001
@@ -542,6 +639,8 @@ def exc_key(api, r, res):
         return 'S8-schema-misplaced-required'
     if fn in YAML_STAGE:
         return 'NEW-%s-_yaml_load' % et
+    if et == 'KeyError' and fn == '_create_static_array_ft' and "'length'" in msg:
+        return 'S14-static-array-KeyError-length'
     if res.get('attrib') == 'S18':
         return 'S18-integral-float-%s-%s' % (et, fn)
     if is_post_validation_site(site):
@@ -598,8 +697,16 @@ def case_deviations(task, res):
             key = HOLE_KEY[a]
         elif re.search(r"[\u2018'`]ts[\u2019'] undeclared", outp):
             key = 'S6-timestamp-feature-without-clock-does-not-compile'
+        elif res.get('odd_c_type'):
+            key = None      # the user's own `$c-type` string is not a C type: no front end can know
+        elif 'integer constant is too large' in outp:
+            key = 'NEW-unbounded-integer-property-does-not-compile'
+        elif 'empty initializer braces' in outp:
+            key = 'NEW-uuid-feature-without-uuid-does-not-compile'
         else:
             key = 'NEW-accepted-does-not-compile'
+        if key is None:
+            return devs
         msg1 = re.sub(r'/\S*/(gen/)', r'\1', first[0]) if first else outp[:200]
         devs.append((key, 'accepted document generates C that does not compile: %s: %s' % (name, msg1[:200])))
     return devs
@@ -776,7 +883,7 @@ def run(ctx):
     for b in good:
         allf += enumerate_faults(b)
     enumerated = len(allf)
-    sel = select_struct(allf, ctx, ctx.pick(46.0, 600.0) * WORKERS)
+    sel = select_struct(allf, ctx, ctx.pick(44.0, 450.0) * WORKERS)
     for i, f in enumerate(sel):
         tasks.append({'kind': 'struct', 'base': f['base'], 'dialect': f['dialect'], 'faults': [f],
                       'version_api': f['file'] == MAIN and len(f['path']) <= 1, 'all_apis': i % 8 == 0})
@@ -810,7 +917,7 @@ def run(ctx):
 
     # ---- aggregate
     counts, per_dialect, devs = {}, {}, {}
-    accepted = generated = compiled_fail = 0
+    accepted = generated = compiled_fail = user_ctype_fail = 0
     hashes = set()
     by_class = {'ok': [], 'cpe': [], 'other': []}
     samples, skips = [], 0
@@ -837,6 +944,7 @@ def run(ctx):
             accepted += 1
             generated += 1 if 'generated' in r else 0
             compiled_fail += 1 if r.get('compile_fail') else 0
+            user_ctype_fail += 1 if r.get('compile_fail') and r.get('odd_c_type') else 0
         cd = case_deviations(t, r)
         if t['kind'] == 'corpus':
             corpus_report[t['name']] = {'from_file': oc, 'effective': (r.get('effective') or {}).get('outcome'),
@@ -1014,7 +1122,8 @@ def run(ctx):
         'accepted_documents': accepted,
         'accepted_generated': generated,
         'accepted_compile_failures': compiled_fail,
-        'compile_units_compiled_distinct': len(os.listdir(os.path.join(scratch, 'seen'))),
+        'compile_failures_due_to_user_supplied_c_type_string_not_counted': user_ctype_fail,
+        'compile_units_compiled_distinct': len([x for x in os.listdir(os.path.join(scratch, 'seen')) if x.endswith('.res')]),
         'deviation_keys': {k: {'count': v['count'], 'by_case_kind': v['by_kind'], 'what': v['what'][:200],
                                'reproducer': {fn: tx[:1500] for fn, tx in (v.get('repro') or {}).items()}}
                            for k, v in sorted(devs.items())},
@@ -1029,7 +1138,6 @@ def run(ctx):
     if executed:
         ctx.notes.append('C10 impl: _yaml_load uses the unsafe yaml.Loader: a `!!python/object/apply:os.mkdir` tag in a '
                          'configuration file was EXECUTED while loading (harmless directory inside the scratch directory)')
-    ctx.cov.setdefault('evaluations', 0)
 
 
 if __name__ == '__main__':
